@@ -6,7 +6,7 @@ Driver for the virtual-world propagation model (C15).  State = the input files b
   reset                                   -> ok      (forget everything)
   methods [M1,M2]                         -> ok
   g  <key> <val>                          -> ok      global value of a plain propagating parameter
-  gm <method++param> <val>                -> ok      global value of a method-specific parameter
+  gm <method> <param> <val>               -> ok      global value of a method-specific parameter
   flags <hasTypes> <sitesHaveEquip> <typesHaveEquip> <hasSources>   -> ok
   type <name> <equip> <cells>             -> ok      a row of the site type file
   site <id> <type> <equip> <cells>        -> ok      a row of the sites file
@@ -27,8 +27,8 @@ open LdarModel LdarModel.Propagate LdarModel.Proto
 
 structure DrvState where
   methods : List String := []
-  g : Dict := []
-  gm : Dict := []
+  g : Dict String := []
+  gm : Dict MKey := []
   files : Files := { hasTypes := false, types := [], sitesHaveEquip := false, typesHaveEquip := false,
                      sites := [], equipment := [], sources := none }
   srcRows : List SrcRow := []
@@ -99,9 +99,9 @@ def step (st : DrvState) (toks : List String) : DrvState × String :=
     match parseVal v with
     | some v => ({ st with g := st.g.set k v }, "ok")
     | none => (st, "bad-op")
-  | ["gm", k, v] =>
+  | ["gm", me, p, v] =>
     match parseVal v with
-    | some v => ({ st with gm := st.gm.set k v }, "ok")
+    | some v => ({ st with gm := st.gm.set (me, p) v }, "ok")
     | none => (st, "bad-op")
   | ["flags", a, b, c, d] =>
     match bool? a, bool? b, bool? c, bool? d with
